@@ -147,4 +147,53 @@ example :
     let r := eRun e 3 0 t [.ev (.mouse 1 1), .ev (.mouse 5 5)]
     r.2 = true ∧ (hoverRun [] r.1.trace).isSome = true ∧ r.1.lastHits.map Hit.w = [0, 1] := by decide
 
+/-! ### focus pairing and commands-once with failing handlers: the full statements (round 4, NOT proved) and why the
+    error-free forms are false -/
+
+/-- The trace without the FocusOut calls that failed (`k` = number of handler calls before the stretch): a failing FocusOut handler
+cancels the focus change — the focus stays, no FocusIn is sent (`focus_out_error_keeps_focus`). -/
+def dropFailedOut (e : EOracle) : Nat → List Entry → List Entry
+  | _, [] => []
+  | k, .call w ev ph :: r =>
+    if ev = .focusOut ∧ e.fails w ev ph k = true then dropFailedOut e (k + 1) r else .call w ev ph :: dropFailedOut e (k + 1) r
+  | k, x :: r => x :: dropFailedOut e k r
+
+/-- The effects owed by the calls that did NOT fail (the command returned together with an error is dropped at every call site). -/
+def owedE (e : EOracle) : Nat → List Entry → List Eff
+  | _, [] => []
+  | k, .call w ev ph :: r => (if e.fails w ev ph k then [] else nfEffs (e.o.h w ev ph k).flatten) ++ owedE e (k + 1) r
+  | k, _ :: r => owedE e k r
+
+/-- **Focus pairing over whole histories with failing handlers — full statement, not proved.**  Apart from the FocusOut calls whose
+handler failed, all FocusOut / FocusIn notifications pair up from the root widget and end with the widget focused now, wherever `Run`
+ends.  (Proved without failures: `C15.focus_change_once_history`; per command with failures: `focus_out_error_keeps_focus`,
+`focus_in_error_drops_its_command`.  A proof needs the relation `FP` of `Lemmas/VxfwFocus.lean` redone for the error-aware functions
+with the call counter threaded through — the route `Lemmas/VxfwHoverErr.lean` takes for hover.) -/
+def focus_pairs_err_full : Prop :=
+  ∀ (e : EOracle) (fuel : Nat) (root : Id) (t0 : STree) (steps : List Step),
+    focusRun root false (dropFailedOut e 0 (eRun e fuel root t0 steps).1.trace) = some (eRun e fuel root t0 steps).1.focused
+
+/-- **Commands-once over whole histories with failing handlers — full statement, not proved**: the command effects in the trace are a
+permutation of the effects asked for by the calls that did not fail (budget not exhausted). -/
+def commands_once_err_full : Prop :=
+  ∀ (e : EOracle) (fuel : Nat) (root : Id) (t0 : STree) (steps : List Step),
+    (eRun e fuel root t0 steps).1.stuck = false →
+    (effectsIn (eRun e fuel root t0 steps).1.trace).Perm (owedE e 0 (eRun e fuel root t0 steps).1.trace)
+
+/-- Why the failed calls must be excluded (the statements of `Props/C15.lean` read literally are FALSE with failing handlers): widget 0's
+FocusOut handler fails when a key handler asks for the focus to go to widget 1 — the raw trace has a FocusOut without a FocusIn (no
+pairing), the focus is still on 0; and a failing key handler's `redraw` is owed by the literal `owed` but never executed.  The
+statements above hold on both histories. -/
+theorem raw_statements_fail_with_errors :
+    let o : Oracle := ⟨fun _ ev _ _ => match ev with | .key 1 => .focus 1 | .key 2 => .redraw | _ => .nil, fun _ => false⟩
+    let t : STree := .node 0 9 9 [(0, 0, 0, .node 1 2 2 [])]
+    let e1 : EOracle := ⟨o, fun _ ev _ _ => ev == .focusOut⟩
+    let e2 : EOracle := ⟨o, fun _ ev _ _ => ev == .key 2⟩
+    let r1 := eRun e1 3 0 t [.ev (.key 1)]
+    let r2 := eRun e2 3 0 t [.ev (.key 2)]
+    focusRun 0 false r1.1.trace = none ∧ r1.1.focused = 0 ∧ r1.2 = false ∧
+    focusRun 0 false (dropFailedOut e1 0 r1.1.trace) = some 0 ∧
+    r2.2 = true ∧ effectsIn r2.1.trace = [] ∧ owed o.h 0 r2.1.trace = [.redraw] ∧ owedE e2 0 r2.1.trace = [] := by
+  decide
+
 end VaxisModel.Props.C15Err
